@@ -53,7 +53,7 @@ TIERS = {
         vf1=["none", "plain", "override", "constf", "pure", "final"],
         dtx=["dflt", "virt"],
         acc1=[("public", False), ("public", True), ("protected", False), ("private", True)],
-        mk1=["val", "const", "ref", "arr", "static"],
+        mk1=["val", "const", "carr", "ref", "arr", "static"],
         ctm=["none", "defdflt", "copydflt"],
         # two dependencies
         ct2=["none", "defdflt"],
@@ -571,6 +571,45 @@ def copyset_shapes():
     return out
 
 
+def constmember_shapes():
+    """Const (array) members of class type: whether the holder's implicit default constructor
+    exists depends on whether the member class K is const-default-constructible, i.e. on the
+    form of K's default constructor (implicit, `= default`, user-provided) and on whether K, a
+    base of K or a member of K leaves a scalar uninitialised."""
+    out, seen = [], set()
+
+    def add(s):
+        if s not in seen:
+            seen.add(s)
+            out.append(s)
+    Ks = []
+    for ct in ("none", "defdflt", "def", "dflt+dflt", "intdflt", "def+copy"):
+        for dm in ("none", "int", "init", "arr", "cinit", "static", "privint"):
+            Ks.append((ct, "none", dm, "none", (), ()))
+    # the uninitialised scalar sits in a base or in a member of K
+    U = ("none", "none", "int", "none", (), ())
+    I = ("none", "none", "init", "none", (), ())
+    for ct in ("none", "defdflt", "def"):
+        for inner in (U, I):
+            Ks.append((ct, "none", "none", "none", (("public", False, inner),), ()))
+            Ks.append((ct, "none", "none", "none", (("public", True, inner),), ()))
+            Ks.append((ct, "none", "none", "none", (), (("val", inner),)))
+            Ks.append((ct, "none", "none", "none", (), (("arr", inner),)))
+    for K in Ks:
+        add(K)
+        for hct in ("none", "defdflt", "def"):
+            for mk in ("const", "carr", "val", "arr"):
+                H = (hct, "none", "none", "none", (), ((mk, K),))
+                add(H)
+                if hct == "none" and mk in ("const", "carr"):
+                    # everything deriving from / containing the holder
+                    add(("none", "none", "none", "none", (("public", False, H),), ()))
+                    add(("defdflt", "none", "none", "none", (("public", True, H),), ()))
+                    add(("none", "none", "none", "none", (), (("val", H),)))
+                    add(("none", "none", "none", "none", (), (("carr", H),)))
+    return out
+
+
 # ------------------------------------------------------------------ driver
 def detail_of(o, hdr=None):
     return {"shape": L.key(o.shape), "compiler": dict(o.gxx) if o.gxx else None,
@@ -679,6 +718,14 @@ def main():
     else:
         ck.extra["copyset"] = {"classes": len(cshapes), "valid": len(cobs)}
         print("copyset: %d classes, %d valid, %.0fs" % (len(cshapes), len(cobs), ck.elapsed()), flush=True)
+
+    kshapes = constmember_shapes()
+    kobs = process("constmember", kshapes)
+    if kobs is None:
+        ck.cap("deadline during the constmember family")
+    else:
+        ck.extra["constmember"] = {"classes": len(kshapes), "valid": len(kobs)}
+        print("constmember: %d classes, %d valid, %.0fs" % (len(kshapes), len(kobs), ck.elapsed()), flush=True)
 
     reps = {}       # rep key -> shape (first in canonical order)
     coarse = {}
